@@ -110,6 +110,49 @@ K({
     "trusted": ["alloc::vec / alloc::boxed as compiled by Kani"],
 })
 
+# -------------------------------------------------------------------------- K13
+COH = "chalk-solve/src/coherence.rs"
+K({
+    "id": "K13",
+    "title": "coherence_priorities: CoherenceSolver::set_priorities, SpecializationPriorities::{insert, priority} on real petgraph forests",
+    "crate": "chalk-solve",
+    "complete": False,
+    "bound": {"quick": "every labelled DAG on <= 3 impls (29 graphs, exhaustive below the bound)", "thorough": "+ 4-impl DAGs with a node of in-degree >= 2"},
+    "mods": [{"into": COH, "harness": "chalk_solve/k13_coherence.rs", "name": "verif_k13"}],
+    "targets": [
+        {"file": COH, "fn": "set_priorities", "path": "CoherenceSolver::set_priorities",
+         "clauses": ["pre: forest is a DAG, edges less special -> more special",
+                     "post: no panic; every impl gets a priority; for every edge u->v priority(v) > priority(u)",
+                     "callee SpecializationPriorities::insert replaced by its contract (kani::stub)"]},
+        {"file": COH, "within": r"^impl<I: Interner> SpecializationPriorities<I>$", "fn": "insert", "path": "SpecializationPriorities::insert",
+         "clauses": ["post: stored(impl) == max(old stored(impl), p); result == (stored changed); other keys untouched  (k13_insert_contract, real IndexMap)"]},
+        {"file": COH, "within": r"^impl<I: Interner> SpecializationPriorities<I>$", "fn": "priority", "path": "SpecializationPriorities::priority",
+         "clauses": ["defined for every impl of the forest"]},
+    ],
+    "assumptions": [
+        "K13: the pairwise disjoint/specializes queries that build the forest are solver calls and are not verified; the forest is assumed to be a DAG with edges from less to more special impls",
+        "K13: the root loop of specialization_priorities (3 lines) is replicated in the harness because build_specialization_forest needs a solver",
+        "K13: petgraph / indexmap as compiled by Kani",
+    ],
+    "trusted": ["petgraph::Graph", "indexmap::IndexMap"],
+    "harness_timeout": {"quick": 300, "thorough": 1500},
+})
+
+K({
+    "id": "K13O",
+    "title": "coherence_priorities, variant for the pre-repair signature of SpecializationPriorities::insert (-> (), asserts the key is absent)",
+    "crate": "chalk-solve",
+    "group": "old",
+    "complete": False,
+    "bound": KANI_UNITS["K13"]["bound"],
+    "mods": [{"into": COH, "harness": "chalk_solve/k13o_coherence_old.rs", "name": "verif_k13o"}],
+    "applicable_if": {"file": COH, "within": r"^impl<I: Interner> SpecializationPriorities<I>$", "fn": "insert", "sig_not_regex": r"->\s*bool"},
+    "targets": KANI_UNITS["K13"]["targets"][:1],
+    "assumptions": KANI_UNITS["K13"]["assumptions"],
+    "trusted": ["petgraph::Graph"],
+})
+KANI_UNITS["K13"]["applicable_if"] = {"file": COH, "within": r"^impl<I: Interner> SpecializationPriorities<I>$", "fn": "insert", "sig_regex": r"->\s*bool"}
+
 # --------------------------------------------------------------------------- V1
 V({
     "id": "V1",
@@ -135,6 +178,31 @@ V({
         "V7: Vec<EnaVariable>::clone returns an equal vector (vstd Vec::clone spec + EnaVariable: Copy)",
     ],
     "trusted": ["ena::unify::InPlaceUnificationTable snapshot/rollback_to/commit (dependency, assumed contract)"],
+})
+
+# --------------------------------------------------------------------------- V3
+V({
+    "id": "V3",
+    "title": "recursive_lattice: <&dyn RustIrDatabase as SolverStuff>::{is_coinductive_goal, initial_value, reached_fixed_point, error_value}",
+    "template": "v3_recursive_lattice.rs",
+    "assumptions": [
+        "V3: core::result::Result is replaced by an identical local enum so that its derived PartialEq can be specified as structural (vstd has no spec for Result == Result; orphan rule)",
+        "V3: UCanonical::trivial_substitution returns an identity substitution (iterator code in chalk-ir, not verified); Constraints::empty is empty",
+        "V3: callee contracts Solution::is_ambig (proved by V1) and is_coinductive (proved by V10)",
+    ],
+    "trusted": ["chalk-ir UCanonical::trivial_substitution"],
+})
+
+# -------------------------------------------------------------------------- V10
+V({
+    "id": "V10",
+    "title": "coinductive_goal: IsCoinductive for Goal and for UCanonical<InEnvironment<Goal>>; Binders::skip_binders",
+    "template": "v10_coinductive.rs",
+    "assumptions": [
+        "V10: goals are finite trees (goal_height decreases under a quantifier); Goal::data returns the interned GoalData",
+        "V10: TraitDatum::is_auto_trait / is_coinductive_trait read the trait's flags (abstract)",
+    ],
+    "trusted": ["interner (Goal::data)"],
 })
 
 # ===========================================================================
